@@ -88,6 +88,37 @@ theorem C14_fields_prop (t : Bytes) (e : PropEntry) (h : parse t = .ok (.prop e)
         · cases h
       · cases h
 
+/-! ## (d) the text determines the entry: writing is injective -/
+
+/-- Recordable entries of any kind (the hypotheses of the round-trip theorems above). -/
+def Recordable : Entry → Prop
+  | .ref e => e.WF
+  | .prop e => e.WF
+  | .ann e => e.WF ∧ PemRoundTrip e
+
+/-- Every recordable entry is read back exactly, whatever its kind. -/
+theorem C14_parse_render_any (a : Entry) (ha : Recordable a) : parse (render a) = .ok a := by
+  cases a with
+  | ref e => exact parse_renderRef e ha
+  | prop e => exact parse_renderProp e ha
+  | ann e => exact parse_renderAnn e ha.1 ha.2
+
+/-- Two recordable entries with the same commit-message text are the same entry: same kind
+(a reference entry is never read as a propagation entry or an annotation, nor conversely) and the
+same value in every field.  So the log's text never conflates two different recorded facts. -/
+theorem C14_render_injective (a b : Entry) (ha : Recordable a) (hb : Recordable b)
+    (h : render a = render b) : a = b := by
+  have h1 := C14_parse_render_any a ha
+  rw [h, C14_parse_render_any b hb] at h1
+  exact (Except.ok.inj h1).symm
+
+/-- In particular a reference entry's text is never the text of a propagation entry. -/
+theorem C14_ref_text_ne_prop_text (e : RefEntry) (p : PropEntry) (he : e.WF) (hp : p.WF) :
+    render (.ref e) ≠ render (.prop p) := by
+  intro h
+  have := C14_render_injective (.ref e) (.prop p) he hp h
+  cases this
+
 /-! ## the known defect F11 -/
 
 /-- `refs/heads/x` followed by U+00A0 (a branch name git accepts) -/
@@ -128,6 +159,16 @@ example : PemRoundTrip exAnn := by decide
 example : exRef.WF := by decide
 example : exProp.WF := by decide
 example : ¬ f11Written.WF := by decide
+set_option maxRecDepth 100000 in
+example : Recordable (.ref exRef) ∧ Recordable (.prop exProp) ∧ Recordable (.ann exAnn) := by
+  refine ⟨?_, ?_, ?_, ?_⟩
+  · show exRef.WF; decide
+  · show exProp.WF; decide
+  · show exAnn.WF; decide
+  · show PemRoundTrip exAnn; decide
+/-- injectivity needs the guard: the F11 pair renders two different texts that read as ONE entry,
+and the unguarded entry is not recordable in the sense above -/
+example : ¬ Recordable (.ref f11Written) := by show ¬ f11Written.WF; decide
 set_option maxRecDepth 100000 in
 example : fieldsCanonicalB (render (.ref exRef)) (.ref exRef) = true := by decide
 
